@@ -20,7 +20,9 @@ RULE = (
     'share exactly its pre-all-in cards and no other card appears twice; '
     'the union of boards equals all BoardDealing cards; board/burn '
     'operations after the all-in = r x remaining streets; every pot is '
-    'spread evenly over the b*r boards. Non-trivial = an all-in hand with '
+    'spread evenly over the b*r boards, its shares add up to the pot of the '
+    'independent contribution model, and the division never raises. '
+    'Non-trivial = an all-in hand with '
     'board cards to come (selection expected or tournament counterpart); '
     'distinct by (game, players, mode, boards, preferences, operation-kind '
     'sequence).')
@@ -36,7 +38,7 @@ REQUIRED = ('allin_hands_with_board_to_come', 'selections_checked',
             'multi_runout_hands', 'disagreeing_preferences',
             'tournament_allin_hands', 'multi_board_hands',
             'terminal_board_structures_checked', 'explicit_order_selections',
-            'pots_split_over_boards')
+            'pots_split_over_boards', 'pot_totals_compared')
 
 CUSTOMS = ('greek', 'holdem8', 'plo8', 'courchevel', 'random')
 
@@ -70,6 +72,7 @@ class RunoutMonitor(Monitor):
         self.allin_at = None       # number of ops logged at that time
         self.sel = []              # (player, count) in order
         self.probed = False
+        self.live_at_push = None
 
     def _detect(self, ctx, s):
         if self.expected is None and s.status and expect_selection(s) \
@@ -80,6 +83,8 @@ class RunoutMonitor(Monitor):
 
     def on_op(self, ctx, s, op):
         k = type(op).__name__
+        if k == 'ChipsPushing' and self.live_at_push is None:
+            self.live_at_push = list(s.statuses)
         if k == 'RunoutCountSelection':
             self.sel.append((op.player_index, op.runout_count))
             if str(s.mode) == 'Tournament':
@@ -131,6 +136,14 @@ class RunoutMonitor(Monitor):
             ctx.counters['explicit_order_selections'] += 1
 
     def on_end(self, ctx, s):
+        if 'op_exc' in ctx.data and s.board_count > 1:
+            name, args, exc = ctx.data['op_exc']
+            site = hist.exc_site(exc)
+            if 'push_chips' in site or '_begin_chips_pushing' in site \
+                    or name == 'push_chips':
+                ctx.violate(f'dividing the pots over {s.board_count} boards '
+                            f'failed: {name}{tuple(args)} raised '
+                            f'{type(exc).__name__}: {exc} [{site}]')
         if s.status or 'op_exc' in ctx.data:
             return
         cash = ctx.cfg['mode'] != 'TOURNAMENT'
@@ -236,6 +249,20 @@ class RunoutMonitor(Monitor):
             for o in pushes:
                 by_pot.setdefault(o.pot_index, Counter())[o.board_index] += \
                     o.total_amount
+            # the parts add up to the pot (pot amounts from the independent
+            # contribution model of C02; no rake in this class)
+            if sum(s.statuses) > 1 and self.live_at_push is not None:
+                from vflib.ref import payout
+                contrib, antes = payout.contributions_from_log(s)
+                model = payout.ref_pots(s, contrib, antes, self.live_at_push)
+                for p, (amt, elig) in enumerate(model):
+                    got = sum(by_pot.get(p, Counter()).values())
+                    ctx.counters['pot_totals_compared'] += 1
+                    if got != amt:
+                        ctx.violate(
+                            f'pot {p} holds {amt} but its shares over the '
+                            f'{b * r} boards add up to {got}: '
+                            f'{dict(by_pot.get(p, {}))} (model pots {model})')
             for p, c in by_pot.items():
                 total = sum(c.values())
                 ctx.counters['pots_split_over_boards'] += 1
